@@ -26,7 +26,8 @@ From PV Require Import Gen.ElfLayouts Spec.ElfGabi Spec.C01Obs Spec.C01Image Mod
 From PV Require Import Model.C01History Spec.C01History Proofs.C01History.
 From PV Require Import Spec.C01Machines.
 From PV Require Import Proofs.C01Lemmas Proofs.C01Open Proofs.C01Sections Proofs.C01Iter
-  Proofs.C01Dispatch Proofs.C01Machines Proofs.C01Top Proofs.C01Examples.
+  Proofs.C01Dispatch Proofs.C01Machines Proofs.C01Top Proofs.C01Examples Proofs.C01HashTie.
+From PV Require Import Gen.C09Hash.
 Open Scope string_scope.
 Open Scope list_scope.
 Open Scope Z_scope.
@@ -38,6 +39,16 @@ Theorem C01_gen_layouts_match_gabi : forall le is64,
   gen_Elf_Phdr le is64 = spec_Elf_Phdr le is64.
 Proof. exact gen_layouts_match_gabi. Qed.
 Print Assumptions C01_gen_layouts_match_gabi.
+
+(* ---- 1b. the one machine-dependent layout: the wide SysV hash table (ELF64 Alpha / s390x psABIs) and the
+   (machine, class) pairs that use it are the ones tabulated from the live struct factories for every
+   machine name, class and byte order (Gen/C09Hash.v) *)
+Theorem C01_hash_layout_translated : forall le is64 m,
+  Elf_Hash_wide le = gen_Elf_Hash_wide le /\
+  hash_is_wide is64 m
+  = existsb (fun p => String.eqb (fst p) (machine_key m) && Bool.eqb (snd p) is64) gen_hash_wide.
+Proof. exact (fun le is64 m => conj (Elf_Hash_wide_translated le) (hash_is_wide_translated is64 m)). Qed.
+Print Assumptions C01_hash_layout_translated.
 
 (* ---- 2. ELFFile(stream) succeeds; class, byte order and EVERY file-header field are the encoded
    ones (enum fields by name or raw integer, see 9) *)
